@@ -42,7 +42,7 @@ ASSUMPTIONS = ["process-based kind: parent and spawned child are simulated proce
 
 
 def simulate(kind, values, cancel_step=None, cancel_time=None, silent=False,
-             timeout_cancel=None):
+             timeout_cancel=None, lost_op_request=None):
     """one simulation of one configuration; returns a dict of observations
 
     silent: at the moment of the cancellation a terminal the group only reads (if there
@@ -52,6 +52,9 @@ def simulate(kind, values, cancel_step=None, cancel_time=None, silent=False,
     from ebpfcat.ethercat import EtherCat
 
     tape = values if isinstance(values, Tape) else Tape(replay=values)
+    if tape.replay is not None and tape.tail is None:
+        import random
+        tape.tail = random.Random(len(tape.replay))    # (a run that outlasts the reference)
     fast = kind == "fast"
     env = Env(tape, with_kernel=fast,
               faults=WireFaults(delay_buckets=(50e-6, 20e-6, 150e-6, 600e-6)))
@@ -136,6 +139,33 @@ def simulate(kind, values, cancel_step=None, cancel_time=None, silent=False,
         t0 = loop.time()
         task = sg.start()
         obs["sg"] = sg
+        if lost_op_request is not None:
+            # the frame that carries the OPERATIONAL requests is lost; the group (which
+            # waits for its answer) is cancelled a little later; the bus is then watched
+            # for longer than any resend of that frame would take
+            from sim.bus import parse_ecat
+
+            def lose_it(no, frame):
+                if "op_frame_lost" in obs or len(frame) < 30:
+                    return None
+                try:
+                    _, _, dg = parse_ecat(bytes(frame[14:]), strict=False)
+                except Exception:
+                    return None
+                if any(d.cmd == 5 and d.ado == 0x120 and frame[14 + d.data_pos] & 0xf == 8
+                       for d in dg):
+                    obs["op_frame_lost"] = loop.time() - t0
+                    world.count("fault/frame-with-the-operational-requests-lost")
+
+                    def cancel_now():
+                        obs["cancel_injected_at"] = loop.time() - t0
+                        obs["started"] = True
+                        bus.delay_for = None
+                        task.cancel()
+                    loop.call_later(lost_op_request, cancel_now)
+                    return 1e7
+                return None
+            bus.delay_for = lose_it
 
         def hook(t):
             if t is task:
@@ -165,6 +195,8 @@ def simulate(kind, values, cancel_step=None, cancel_time=None, silent=False,
             e = task.exception()
             obs["outcome"] = "returned" if e is None else f"{type(e).__name__}: {e}"
         await asyncio.sleep(0.05)       # let everything that was sent reach the terminals
+        if lost_op_request is not None:
+            await asyncio.sleep(0.4)
         obs["fmmu_used"] = [list(t.fmmu_used) for t in terms]
         obs["al_logs"] = [list(st.al_log) for st in sims]
         obs["al_states"] = [st.al_state for st in sims]
@@ -229,6 +261,12 @@ def simulate_process(values, cancel_step=None, cancel_time=None):
     from ebpfcat.ebpfcat import ParallelEtherCat, ProcessSyncGroup
 
     tape = values if isinstance(values, Tape) else Tape(replay=values)
+    if tape.replay is not None and tape.tail is None:
+        import random
+        tape.tail = random.Random(len(tape.replay))
+    if tape.replay is not None and tape.tail is None:
+        import random
+        tape.tail = random.Random(len(tape.replay))    # (a run that outlasts the reference)
     env = Env(tape, with_kernel=True, with_fs=True,
               faults=WireFaults(delay_buckets=(50e-6, 20e-6, 150e-6)))
     world = env.world
@@ -444,6 +482,24 @@ def run(tape, scenario):
                                  f"{'before' if before else 'after'} the time-out fires")
             if r is not None:
                 r[2]["with_timeout"] = True
+                violations.append({"rule": r[0], "params": r[2], "detail": r[1]})
+                break
+    if not violations and kind != "process" and ref.get("ref_time"):
+        # the frame with the OPERATIONAL requests lost, the cancellation 0-90 ms later
+        for j in range(2):
+            dt = [0.0, 0.002, 0.03, 0.09][tape.draw("c24/cancel-after-the-lost-frame", 4)]
+            obs = sim(kind, values, lost_op_request=dt)
+            if "op_frame_lost" not in obs:
+                break           # (a group that writes no terminal requests nothing)
+            stats["c24/simulations"] += 1
+            stats["c24/cancels-after-a-lost-op-request"] = \
+                stats.get("c24/cancels-after-a-lost-op-request", 0) + 1
+            sim_time += obs["sim_time"]
+            nontrivial += bool(obs.get("started"))
+            r = judge(kind, obs, f"frame with the OPERATIONAL requests lost, cancel "
+                                 f"{dt * 1e3:.0f} ms later, bus watched for 0.45 s")
+            if r is not None:
+                r[2]["lost_op_request"] = True
                 violations.append({"rule": r[0], "params": r[2], "detail": r[1]})
                 break
     stats["c24/cancelled-simulations"] = stats["c24/simulations"] - 1
